@@ -52,7 +52,23 @@ TCPCL_RULE = ("one evaluation = one seeded run: 1..8 bundles (1..4 each way when
               "{none, scripted peer stops acknowledging / refuses (each code) after k segments, wire closes or black-holes after message k in either direction}; the scheduler picks the "
               "direction that proceeds from the seed. Non-trivial = every run (at least one transfer); distinct = distinct canonical log.")
 
+C12_RULE = ("two harnesses. MTCP: one evaluation = a seeded sequence of 1..20 sends (payload 1..2000 bytes) interleaved with advances across the 5 s keep-alive ticks on one simulated TCP-like "
+            "stream with seeded chunk sizes (1..4096 bytes per read) and, in 60% of the runs, a cut at a seeded byte offset. BBC: one evaluation = one bundle x modem MTU (3..255) x transmission id: "
+            "the clean fragment train is judged, then EVERY single drop, duplication and adjacent swap of the train is applied in turn (enumerated), then 2..6 seeded multi-fault patterns (<16 losses "
+            "in a row) and two interleaved incoming transmissions. Non-trivial = at least one send (MTCP) / a train of >= 2 fragments (BBC); distinct = distinct canonical log.")
+
 PROPS = {
+    "C12": {"parts": [
+                {"pkg": "pkg/cla/mtcp", "binary": "mtcp.test", "harness": "mtcp", "variants": [""]},
+                {"pkg": "pkg/cla/bbc", "binary": "bbc.test", "harness": "bbc", "variants": [""]}],
+            "focus": "C12", "budget": {"quick": 45, "thorough": 900}, "level": "exploration", "rule": C12_RULE,
+            "real": ["mtcp.MTCPClient (Send, keep-alive handler, failure reporting)", "mtcp.MTCPServer.handleSender", "bbc.Connector (Send, handlerRead, handlerWrite, handleIncomingFragment)",
+                     "bbc Outgoing/IncomingTransmission, Fragment, xz compression", "bpv7 codec"],
+            "stub": ["TCP sockets -> simConn (in-memory TCP-like stream: seeded chunking, cut at a byte offset, writes fail after the cut)", "LoRa modem (rf95) -> simulated broadcast medium that applies the fault pattern to a fragment train",
+                     "MTCP dial/listen/accept: the client is constructed in-package on the simulated connection"],
+            "assumptions": COMMON_ASSUME + ["BBC: the medium collects a sender's whole train before delivering it (the sender never sees a failure fragment while it is still sending)",
+                                            "MTCP: a write on a broken connection fails immediately (no kernel send buffer that accepts one more write)"],
+            "required_probes": ["send_after_cut", "clean_connection", "frag_drop", "frag_dup", "frag_swap", "interleaved_transmissions"]},
     "C11": {"pkg": "pkg/cla/tcpclv4/internal/utils", "binary": "tcpcl.test", "harness": "tcpcl", "focus": "C11", "variants": [""],
             "budget": {"quick": 45, "thorough": 900}, "level": "exploration", "rule": TCPCL_RULE,
             "real": ["utils.TransferManager (Send, handle)", "utils.OutgoingTransfer / IncomingTransfer", "msgs.DataTransmissionMessage / DataAcknowledgementMessage / TransferRefusalMessage values", "bpv7 codec"],
@@ -86,6 +102,10 @@ NODE_NOTE = ("trusted: Go 1.26.8 runtime + testing/synctest fake clock, the harn
              "not covered: real sockets, disk faults below the file API, backward clock jumps; sampling only")
 
 MANIFEST_TEXT = {
+    "C12": {"text": "MTCP: real client and server handler on a simulated stream: the server's channel carries exactly a prefix of the sent bundles, in order and identical, keep-alives invisible, every send invoked "
+                    "after the cut fails and the peer is reported gone. BBC: real connectors on a simulated broadcast medium: the clean train (fragment size <= MTU, consecutive sequence numbers, start/end marks, "
+                    "reassembly) and, enumerated per train, every single drop/duplication/adjacent swap: never a different bundle, and failure signalled whenever the bundle was not obtained.",
+            "design_ref": "DESIGN.md §4 C12, App. A.7", "note": "trusted: the stream and medium models, synctest; sampling over bundles/MTUs/offsets, enumeration of single faults per train", "technique": DST},
     "C11": {"text": "Real sending and receiving TransferManagers (or a scripted peer) on a simulated message wire under the fake clock: the outgoing XFER_SEGMENT sequence (size <= m, concatenation = encoding, "
                     "START/END placement), exactly-one identical bundle at the receiver, 'Send returned nil => the receiver has the complete transfer', an error within the acknowledgement timeout otherwise; "
                     "seeded over (L, m) with divisor bias, concurrent bidirectional transfers, non-acking / refusing peers and wire loss after every message index. Session level (stages, byte stream, WebSocket) is not simulated.",
